@@ -60,3 +60,5 @@ void hq_hwloc_bitmap_isincluded(void) { VERIF_GHOSTS(); struct hwloc_bitmap_s *a
 void hq_hwloc_bitmap_compare(void) { VERIF_GHOSTS(); struct hwloc_bitmap_s *a, *b; hwloc_bitmap_compare(a, b); VERIF_CANARY(); }
 void hq_hwloc_bitmap_compare_first(void) { VERIF_GHOSTS(); struct hwloc_bitmap_s *a, *b; hwloc_bitmap_compare_first(a, b); VERIF_CANARY(); }
 void hq_hwloc_bitmap_singlify(void) { VERIF_GHOSTS(); struct hwloc_bitmap_s *s; hwloc_bitmap_singlify(s); VERIF_CANARY(); }
+void h_hwloc_bitmap_compare_inclusion(void) { VERIF_GHOSTS(); struct hwloc_bitmap_s *a, *b; hwloc_bitmap_compare_inclusion(a, b); VERIF_CANARY(); }
+void hq_hwloc_bitmap_compare_inclusion(void) { VERIF_GHOSTS(); struct hwloc_bitmap_s *a, *b; hwloc_bitmap_compare_inclusion(a, b); VERIF_CANARY(); }
